@@ -168,8 +168,8 @@ def run(ctx, rep):
         good = good and not walk_nodes(ql[0].body, (ast.Return, ast.Continue))
     rep.check(good, "R4", key(pl, None, "queue = size available at the order's own price; the scan stops only on that price"), pl)
     piqw = sorted({f.qual for f, s, t, kind in all_stores(prog, "_piq")})
-    rep.check(piqw == ["SimulatedOrder.__init__", "SimulatedOrder._calculate_process_available",
-                       "SimulatedOrder._calculate_process_traded", "SimulatedOrder.place"], "R4",
+    rep.check(set(piqw) <= {"SimulatedOrder.__init__", "SimulatedOrder._calculate_process_available",
+                            "SimulatedOrder._calculate_process_traded", "SimulatedOrder.place"} and "SimulatedOrder.place" in piqw, "R4",
               "the queue position is written only at placement and by the passive matcher", None, None, str(piqw))
 
     # ------------------------------------------------------------------ R5
